@@ -216,7 +216,8 @@ theorem resolver_needs_environments_counterexample :
 /-! ## Part 4 — index(layers) = scan(flatten(layers))
 
   `indexModel S layers`: every layer scanned in isolation by the scanners `S` (OS package
-  databases, language package files, whiteout files), the per-ecosystem coalescers, MergeSR,
+  databases — one ecosystem each, coalesced by linux.Coalescer (`osDbs`) or rhel.Coalescer
+  (`rhelDbs`) —, language package files, whiteout files), the per-ecosystem coalescers, MergeSR,
   the whiteout resolver.  `scanImage S layers`: the same scanners on the single file system
   `flatten layers` (OCI whiteout / opaque semantics).
 
@@ -265,6 +266,14 @@ example : imageHas Ex.S0 Ex.tameStack "requests-2" "lang:site/requests-2.dist-in
     imageHas Ex.S0 Ex.tameStack "requests-1" "lang:site/requests-1.dist-info/METADATA" = false ∧
     imageHas Ex.S0 Ex.tameStack "curl-7" Ex.dpkgDB = true ∧
     imageHas Ex.S0 Ex.tameStack "left-pad-1" "lang:app/node_modules/left-pad/package.json" = false := by decide
+
+set_option maxRecDepth 10000 in
+/-- … and with the OS database under the rhel coalescer. -/
+theorem tame_example_rhel : Tame Ex.S1 Ex.rhelStack := by decide
+
+set_option maxRecDepth 10000 in
+example : imageHas Ex.S1 Ex.rhelStack "bash-2" Ex.rpmDB = true ∧ imageHas Ex.S1 Ex.rhelStack "bash-1" Ex.rpmDB = false ∧
+    imageHas Ex.S1 Ex.rhelStack "requests-1" "lang:site/requests-1.dist-info/METADATA" = false := by decide
 
 set_option maxRecDepth 10000 in
 /-- clause `oneWhiteout` (finding whiteout-one-per-layer): two whiteouts in one layer, only the
